@@ -77,7 +77,7 @@ def humanized_real(p, inputs):
 def _hum_cases(tier):
     out = []
     if tier == "quick":
-        shapes = [("D.DD", 2), ("DD.D", 1), ("D,DDD", 0), ("DDD.DDD", 3), ("DD", 0)]
+        shapes = [("D.DD", 2), ("DD.D", 1), ("D,DDD", 0), ("DDD.DDD", 3), ("DD", 0), ("D.DDDD", 4)]   # last: more fraction digits than k's exponent
         units = ["M", "k", "Gb", ""]
     else:
         shapes = [("D.DD", 2), ("DD.D", 1), ("D,DDD", 0), ("DDD.DDD", 3), ("DD", 0), ("DDDD.DD", 2), ("D.DDDD", 4), ("DDDDD.D", 1), ("DD,DDD.DD", 2),
